@@ -741,7 +741,7 @@ class Unit:
         return {k: v[1] for k, v in best.items()}
 
     # ---- containers -----------------------------------------------------------
-    def impl(self, src, self_ty, fns, modname, trait=None, nth=None, header=None):
+    def impl(self, src, self_ty, fns, modname, trait=None, nth=None, header=None, stubs=()):
         im = src.find(self_ty, "impl", trait=trait, nth=nth)
         # header: from impl start to `{`
         if header is None:
@@ -757,7 +757,7 @@ class Unit:
                 self._apply(src, f["span"][0], f["span"][1], self._strip_attrs_edits(src, *f["span"]))
                 self.raw("\n")
             elif f["kind"] == "fn" and f["name"] in fns:
-                self.fn(src, f, f"{modname}::{self_ty}::{f['name']}")
+                self.fn(src, f, f"{modname}::{self_ty}::{f['name']}", stub=(f["name"] in stubs))
         self.raw("}\n")
         return im
 
